@@ -726,8 +726,8 @@ def rule_q6(src, rep, counts):
     """READ_SIZE must be at least MAX_KEYPRESS_SIZE (a keypress must fit into one read).  The paste loop itself - threshold test,
     refill while a key may be incomplete, keys appended in order, paste returned when the buffer is exhausted - is decided by the
     interpreted request histories (H1 / H6: bursts above and below every threshold, keys cut by the read boundary)."""
-    from ..consteval import Folder
-    fold = Folder(src)
+    from ..fold import new_interp
+    fold = new_interp(src).folder
     read_size = fold.const("input", "READ_SIZE", int)
     maxk = fold.const("events", "MAX_KEYPRESS_SIZE", int)
     rep.ob("Q6-read-size-adequate", "curtsies/input.py:0", "input:<module>", "READ_SIZE=%d >= MAX_KEYPRESS_SIZE=%d" % (read_size, maxk),
